@@ -229,7 +229,51 @@ pub fn sim_event(w: &World, g: &Geometry, r: &mut Rng, run: u32, ntracks: usize,
     let np = 400usize; // PWB samples
     let mut wires: HashMap<usize, Vec<f64>> = HashMap::new();
     let mut pads: HashMap<(usize, usize), Vec<f64>> = HashMap::new();
+    let radial = ntracks >= 10; // 10 + n: n straight tracks from one point on the axis
+    let ntracks = if radial { ntracks - 10 } else { ntracks };
+    let tables = alpha_g_physics::verif::drift_tables();
+    let zv = (r.below(1600) as f64 - 800.0) / 1000.0;
     for _ in 0..ntracks {
+        if radial {
+            let phi0 = r.below(6283) as f64 / 1000.0;
+            let slope = (r.below(2000) as f64 - 1000.0) / 1000.0;
+            let amp = r.range(900, 2500) as f64;
+            for k in 0..22 {
+                let rad = 0.181 - 0.0032 * k as f64;
+                let z = zv + slope * rad;
+                if z.abs() > 1.14 {
+                    continue;
+                }
+                let Some((table, _)) = tables.iter().find(|(_, zu)| *zu >= z.abs()) else { continue };
+                let Some(&(t, _, corr)) = table
+                    .iter()
+                    .min_by(|a, b| (a.1 - rad).abs().partial_cmp(&(b.1 - rad).abs()).unwrap())
+                else {
+                    continue;
+                };
+                let phi = (phi0 + corr).rem_euclid(2.0 * std::f64::consts::PI);
+                let shifted = (phi / (2.0 * std::f64::consts::PI / 256.0)).floor() as usize % 256;
+                let wi = (shifted + 8) & 0xff;
+                let bin = 3 + (t / 16e-9).round() as usize;
+                let row = (((z + 1.152) / 0.004).floor() as i64).clamp(0, 575);
+                if wires.get(&wi).is_none() {
+                    wires.insert(wi, vec![0.0; nw]);
+                }
+                add_pulse(wires.get_mut(&wi).unwrap(), bin, amp / wmax, &wresp);
+                let col = alpha_g_physics::verif::wire_to_pad_column(wi);
+                for (dr, f) in [(-1i64, 0.35), (0, 1.0), (1, 0.45)] {
+                    let rr = row + dr;
+                    if (0..576).contains(&rr) {
+                        let key = (col, rr as usize);
+                        if pads.get(&key).is_none() {
+                            pads.insert(key, vec![0.0; np]);
+                        }
+                        add_pulse(pads.get_mut(&key).unwrap(), bin.saturating_sub(1), 0.6 * f * amp / pmax, &presp);
+                    }
+                }
+            }
+            continue;
+        }
         let w0 = r.below(256) as usize;
         let len = r.range(14, 26) as usize;
         let dir: i64 = if r.chance(1, 2) { 1 } else { -1 };
@@ -360,7 +404,7 @@ pub fn run(tier: &str, seed: u64, s: &mut Sink) {
     let n_sim = if thorough { 60 } else { 6 };
     for i in 0..n_sim {
         let (run, g) = if i % 3 == 2 { (11192u32, &g_real) } else { (u32::MAX, &g_sim) };
-        let nt = 1 + (i % 3);
+        let nt = if i % 2 == 0 { 12 + (i % 3) } else { 1 + (i % 3) };
         let ev = sim_event(&w, g, &mut r, run, nt, 3);
         // long lists: transpositions are sampled by the relation's nperm only through the driver's budget
         emit_all(s, &mut r, "simulated-tracks-with-noise", if i == 0 { "tp" } else { flags }, if thorough { 20 } else { 3 }, nmodel, ev.run, &ev.banks);
